@@ -26,6 +26,11 @@ CHECKS["C08"] = dict(
    text="Generated regions (all ROI classes, angles at/near multiples of pi/2, thin shapes, concave open/closed polygons, projected 3-d with chunk limits) and point sets with probe rings hugging the true boundary in many array layouts; contains() must equal the sign of an independently computed signed distance off a 1e-7 band; move_to/rotate_to/to_polygon/copy/serialiser round trip are checked as metamorphic relations with the same oracle.",
    note="Trusted: the signed-distance code in pbt/oracles/geometry.py; tolerance band 1e-7*scale; simple polygons only.",
    ref="DESIGN.md section 4 C08")
+CHECKS["C04"] = dict(
+   technique="property-based differential testing (Hypothesis): viewed read vs. the same view of the full result, for every attribute/selection kind and IndexedData",
+   text="Generated-input search with the oracle 'index the full result': for generated datasets, every attribute kind (stored, categorical, derived, linked, pixel, world), every selection kind and composite, and every supported view form, the viewed read must equal the full result indexed by the view (shape, dtype kind, NaN-equal values); IndexedData values, masks, statistics and histograms must equal those of the parent slice, also after its indices change.",
+   note="Trusted: numpy indexing; the full (un-viewed) result is taken from glue itself, so only view consistency is established here. All-integer (0-d) views are counted, not asserted.",
+   ref="DESIGN.md section 4 C04")
 NOT_APPLICABLE = []
 
 def main():
